@@ -233,7 +233,7 @@ def main():
     except UnexpectedCharacters as e:
         in_file.seek(0)
         cnl_input = in_file.read()
-        print(ParserError(e.char, e.line, e.column, e.get_context(cnl_input), cnl_input.splitlines()[e.line - 1],
+        print(ParserError(e.char, e.line, e.column, e.get_context(cnl_input), cnl_input.split('\n')[e.line - 1],
                           list(e.allowed)))
         return ''
     except VisitError as e:
